@@ -185,7 +185,7 @@ func (w *Witness) Update(ctx context.Context, logID string, oldSize uint64, next
 		// checkpoint as trust-on-first-use (TOFU).
 		if status.Code(err) == codes.NotFound {
 			// Store a witness cosigned version of the checkpoint.
-			signed, err := w.signChkpt(nextNote)
+			signed, err := w.signChkpt(nextNote, logID)
 			if err != nil {
 				return nil, fmt.Errorf("couldn't sign input checkpoint: %v", err)
 			}
@@ -237,7 +237,7 @@ func (w *Witness) Update(ctx context.Context, logID string, oldSize uint64, next
 			counterInvalidConsistency.Inc(logID)
 			return prevRaw, ErrInvalidProof
 		}
-		signed, err := w.signChkpt(nextNote)
+		signed, err := w.signChkpt(nextNote, logID)
 		if err != nil {
 			return nil, fmt.Errorf("couldn't sign input checkpoint: %v", err)
 		}
@@ -256,7 +256,7 @@ func (w *Witness) Update(ctx context.Context, logID string, oldSize uint64, next
 		return prevRaw, ErrInvalidProof
 	}
 	// If the consistency proof is good we store the witness cosigned nextRaw.
-	signed, err := w.signChkpt(nextNote)
+	signed, err := w.signChkpt(nextNote, logID)
 	if err != nil {
 		return nil, fmt.Errorf("couldn't sign input checkpoint: %v", err)
 	}
@@ -268,10 +268,19 @@ func (w *Witness) Update(ctx context.Context, logID string, oldSize uint64, next
 }
 
 // signChkpt adds the witness' signature to a checkpoint.
-func (w *Witness) signChkpt(n *note.Note) ([]byte, error) {
+//
+// The cosigned checkpoint is what gets stored, and it is opened again with the
+// log's key at the start of every later update. note.Sign re-emits every
+// signature line that was submitted while note.Open refuses a note with too
+// many of them, so the result is re-opened here before it is handed out:
+// storing something that cannot be read back would wedge the log for good.
+func (w *Witness) signChkpt(n *note.Note, logID string) ([]byte, error) {
 	cosigned, err := note.Sign(n, w.Signers...)
 	if err != nil {
 		return nil, fmt.Errorf("couldn't sign checkpoint: %v", err)
+	}
+	if _, _, err := w.parse(cosigned, logID); err != nil {
+		return nil, fmt.Errorf("cosigned checkpoint cannot be re-opened: %v", err)
 	}
 	return cosigned, nil
 }
